@@ -43,6 +43,8 @@ CLAIMED["C08"]=("order-insensitivity of every range-over-map loop reachable from
   "loop-carried-dependence classification of map iterations over type-checked AST with interprocedural slice-fate tracking; call-graph reachability for forbidden sources and global writes; aliasing rules on the copy constructor", "4/C08")
 CLAIMED["C14"]=("replay order and arguments in recacheAggregatorContext (params in force, prepare previous block, the block's logged messages, seal at the replayed height, prepare the current block on every path); restore-before-use of process-local values; restart branch resets the caches before and marks them clean after the whole recache; logging completeness of submissions, validator changes (flag on every mutating arm), params updates and finalisation; unconditional commit each EndBlock; pruning keeps store and index in agreement and the params in force; singletons only through lazy accessors",
   "ordering / must-pass-through and argument-identity rules over type-checked AST; restore-before-use on the audited global set; sibling agreement between store and index pruning", "4/C14")
+CLAIMED["C19"]=("EVM ante chain order; nonce exact-match rejection and +1 per message; with hooks the message and the hooks share one cache context committed only on success; apply error consumes the gas limit; unused gas refunded on every response at msg.GasPrice() from the fee collector to the sender; gas used = max(limit x multiplier, raw - capped refund) and fixed afterwards; ante fee = VerifyFee's effective fee deducted from each message's sender, fee cap >= base fee, block gas limit; tx-hash context value before EVM construction",
+  "ordering, argument-identity and exact-rejection rules over type-checked AST of the repository's own ante decorators and state transition", "4/C19")
 NA={}
 def main():
     checks=[]
